@@ -29,6 +29,8 @@ func runC15(c *Check, tier string) {
 	ruleAliasChainsFollowed(c, "R15j", "dag", "analysis")
 	ruleRerunBypassesGate(c, "R15k")
 	ruleRerunOnlyWhenNeeded(c, "R15l")
+	ruleLoadedMarkAfterLoads(c, "R15m")
+	shareRule(c, "R15n", "a failed load of a dependency's directory output is reported: the error channel of the restore has room for at least one error (same obligation as R04d)", 1, "R04d", func(sub *Check) { ruleR04d(sub) }, func(k string) bool { return strings.Contains(k, "output/handlers") })
 	shareRule(c, "R15h", "an executed dependency counts as materialised: the completion function sets Target.OutputsLoaded on every path to success, so minimal mode does not run it again where mode all would not (same obligation as R03h)", 1, "R03h", func(sub *Check) { ruleExecutedCountsAsLoaded(sub, "R03h") }, nil)
 	shareRule(c, "R15i", "no goroutine started inside a worker slot runs commands: the dependency re-runs of minimal mode are sequential (same obligation as R03g)", 1, "R03g", func(sub *Check) { ruleNoSpawnInsideSlot(sub, "R03g") }, nil)
 }
@@ -586,5 +588,56 @@ func ruleRerunOnlyWhenNeeded(c *Check, rule string) {
 	}
 	if n == 0 {
 		c.Unknown(rule, "re-run-only-when-needed/"+fname, "no call in the dependency loader reaches the executing method", "-")
+	}
+}
+
+// R15m: a dependency counts as loaded when it is loaded. Dependants that find Target.OutputsLoaded set go ahead
+// without waiting; the restore function may set the mark only when nothing that can still fail — or is still
+// writing into the workspace — lies ahead of it.
+func ruleLoadedMarkAfterLoads(c *Check, rule string) {
+	c.Rule(rule, "in the registry's restore function no wait for a load task (and no handler Load) is reachable after the store OutputsLoaded = true", 1)
+	lo := anchor(c, rule, "output", "Registry", "LoadOutputs")
+	if lo == nil {
+		return
+	}
+	key := fk("model.Target", "OutputsLoaded")
+	pending := func(in ssa.Instruction) bool {
+		call, ok := in.(ssa.CallInstruction)
+		if !ok {
+			return false
+		}
+		cc := call.Common()
+		if cc.IsInvoke() && (cc.Method.Name() == "Wait" || cc.Method.Name() == "Load") {
+			return true
+		}
+		n := engine.CalleeName(call)
+		return strings.HasSuffix(n, ").Wait") || strings.HasSuffix(n, ".SubmitErr") || strings.HasSuffix(n, ".Submit")
+	}
+	n := 0
+	for _, b := range lo.Blocks {
+		for _, in := range b.Instrs {
+			st, ok := in.(*ssa.Store)
+			if !ok {
+				continue
+			}
+			fa, ok := st.Addr.(*ssa.FieldAddr)
+			if !ok || engine.FieldKeyOf(fa.X.Type(), fa.Field) != key {
+				continue
+			}
+			if k, isK := engine.BoolConst(st.Val); !isK || !k {
+				continue
+			}
+			n++
+			reach, at := engine.PathExists(lo, st, pending, engine.PathQuery{Shallow: true})
+			pos := c.P.InstrPos(st)
+			what := ""
+			if at != nil {
+				what = " (" + c.P.InstrPos(at) + ")"
+			}
+			c.Require(!reach, rule, "loaded-mark-after-loads/"+c.P.FuncName(lo), "the mark is set after every load task was waited for", "the target is marked OutputsLoaded while load tasks are still pending"+what+": under load_outputs=minimal a second dependant that asks for the same dependency finds the mark, skips the restore and starts its command while the outputs are still being written (or after a load that is about to fail)", pos)
+		}
+	}
+	if n == 0 {
+		c.Unknown(rule, "loaded-mark-after-loads/"+c.P.FuncName(lo), "the restore function never sets OutputsLoaded", c.P.Pos(lo.Pos()))
 	}
 }
